@@ -775,25 +775,23 @@ MUTANTS = [
         (CQB_H, "        value_guard.dismiss();\n        tail_counter.fetch_add(queue_rep_type::n_queue);", "        value_guard.dismiss();")]),
     dict(name='c09-finalizer-after-move', prop='C09', clause='D3', edits=[
         (CQB_H, """            micro_queue_pop_finalizer<self_type, value_type, page_allocator_type> finalizer(*this, page_allocator,
-                k + queue_rep_type::n_queue, index == items_per_page - 1 ? p : nullptr );
-            if (p->mask.load(std::memory_order_relaxed) & (std::uintptr_t(1) << index)) {
+                k + queue_rep_type::n_queue, valid_page && index == items_per_page - 1 ? p : nullptr );
+            if (valid_page && (p->mask.load(std::memory_order_relaxed) & (std::uintptr_t(1) << index))) {
                 success = true;
                 assign_and_destroy_item(dst, *p, index);
             } else {
                 --base.n_invalid_entries;
-            }""", """            if (p->mask.load(std::memory_order_relaxed) & (std::uintptr_t(1) << index)) {
+            }""", """            if (valid_page && (p->mask.load(std::memory_order_relaxed) & (std::uintptr_t(1) << index))) {
                 success = true;
                 assign_and_destroy_item(dst, *p, index);
             } else {
                 --base.n_invalid_entries;
             }
             micro_queue_pop_finalizer<self_type, value_type, page_allocator_type> finalizer(*this, page_allocator,
-                k + queue_rep_type::n_queue, index == items_per_page - 1 ? p : nullptr );""")]),
-    dict(name='c09-finalizer-relaxed', prop='C09', clause='D3', edits=[
-        (CQB_H, "        my_queue.head_counter.store(my_ticket_type, std::memory_order_release);", "        my_queue.head_counter.store(my_ticket_type, std::memory_order_relaxed);")]),
+                k + queue_rep_type::n_queue, valid_page && index == items_per_page - 1 ? p : nullptr );""")]),
     dict(name='c09-pop-ignores-mask', prop='C09', clause='D3', edits=[
-        (CQB_H, "            if (p->mask.load(std::memory_order_relaxed) & (std::uintptr_t(1) << index)) {\n                success = true;\n                assign_and_destroy_item(dst, *p, index);\n            } else {\n                --base.n_invalid_entries;\n            }",
-         "            {\n                success = true;\n                assign_and_destroy_item(dst, *p, index);\n            }")]),
+        (CQB_H, "            if (valid_page && (p->mask.load(std::memory_order_relaxed) & (std::uintptr_t(1) << index))) {\n                success = true;\n                assign_and_destroy_item(dst, *p, index);\n            } else {\n                --base.n_invalid_entries;\n            }",
+         "            if (valid_page) {\n                success = true;\n                assign_and_destroy_item(dst, *p, index);\n            }")]),
     dict(name='c09-link-page-unlocked', prop='C09', clause='D4', edits=[
         (CQB_H, "        if (p) {\n            spin_mutex::scoped_lock lock( page_mutex );\n            padded_page* q = tail_page.load(std::memory_order_relaxed);", "        if (p) {\n            padded_page* q = tail_page.load(std::memory_order_relaxed);")]),
     dict(name='c09-phi-4', prop='C09', clause='D6', edits=[
@@ -804,16 +802,19 @@ MUTANTS = [
     dict(name='c09-seed3-invalid-entry-bypasses-the-finalizer', prop='C09', clause='D3', edits=[('include/oneapi/tbb/detail/_concurrent_queue_base.h', """        bool success = false;
         {
             page_allocator_type page_allocator(allocator);
+            // After a failed page allocation the page list ends in an invalid page (see invalidate_page):
+            // the entry of the push that failed does not exist at all.
+            bool valid_page = is_valid_page(p);
             micro_queue_pop_finalizer<self_type, value_type, page_allocator_type> finalizer(*this, page_allocator,
-                k + queue_rep_type::n_queue, index == items_per_page - 1 ? p : nullptr );
-            if (p->mask.load(std::memory_order_relaxed) & (std::uintptr_t(1) << index)) {
+                k + queue_rep_type::n_queue, valid_page && index == items_per_page - 1 ? p : nullptr );
+            if (valid_page && (p->mask.load(std::memory_order_relaxed) & (std::uintptr_t(1) << index))) {
                 success = true;
                 assign_and_destroy_item(dst, *p, index);
             } else {
                 --base.n_invalid_entries;
             }
         }
-        return success;""", """        if (!(p->mask.load(std::memory_order_relaxed) & (std::uintptr_t(1) << index))) {
+        return success;""", """        if (!is_valid_page(p) || !(p->mask.load(std::memory_order_relaxed) & (std::uintptr_t(1) << index))) {
             --base.n_invalid_entries;
             head_counter.store(k + queue_rep_type::n_queue, std::memory_order_release);
             return false;
